@@ -291,7 +291,19 @@ pub fn write_cases(cases: &[(HCase, HOut)], shards: usize, outdir: &str) {
     }
 }
 
-pub fn run(seed: u64, count: usize, max_dim: usize, shards: usize, outdir: &str, replay: Option<String>) {
+/// a case whose number of columns is exactly `ny` (rejection sampling over gen_case): used for the sizes at which a packed representation
+/// of column sets (machine words of 64 bits) has no spare bits
+pub fn gen_case_ny(r: &mut Rng, ny: usize) -> HCase {
+    for _ in 0..20000 {
+        let c = gen_case(r, ny);
+        if c.sy.len() == ny {
+            return c;
+        }
+    }
+    gen_case(r, ny)
+}
+
+pub fn run(seed: u64, count: usize, max_dim: usize, shards: usize, outdir: &str, replay: Option<String>, exact: Vec<usize>) {
     std::panic::set_hook(Box::new(|_| {}));
     let mut cases = Vec::new();
     if let Some(path) = replay {
@@ -307,7 +319,7 @@ pub fn run(seed: u64, count: usize, max_dim: usize, shards: usize, outdir: &str,
         for i in 0..count {
             // sizes grow with the index so that small cases (easy to read in a replay) come first
             let md = 1 + (max_dim - 1) * (i + 1) / count.max(1);
-            let c = gen_case(&mut r, md.max(1));
+            let c = if exact.is_empty() { gen_case(&mut r, md.max(1)) } else { gen_case_ny(&mut r, exact[i % exact.len()]) };
             let o = run_impl(&c);
             cases.push((c, o));
         }
